@@ -136,7 +136,28 @@ pub fn run(scn: &Scenario, ctx: &mut Ctx) {
                 for o in &orders {
                     let mut e = subject.clone();
                     let mut failed = false;
+                    // every third delivery order is applied through the batch entry points instead of one by one
+                    let batch_mode = (o.len() + o.iter().sum::<usize>()) % 3;
+                    if batch_mode != 0 {
+                        let list: Vec<Envelope> = o.iter().map(|&ix| contrib[ix].0.clone()).collect();
+                        ctx.probe("batch-add-entry-point");
+                        let r = if batch_mode == 1 { guarded(|| e.add_assertion_envelopes(&list)) } else { guarded(|| Ok(e.add_assertions(&list))) };
+                        match r {
+                            Ok(Ok(x)) => e = x,
+                            Ok(Err(_)) => {
+                                ctx.violate("C07.add-refused", "add_assertion_envelopes refused a list of assertions".to_string());
+                                failed = true;
+                            }
+                            Err(p) => {
+                                ctx.violate_sig("C16.no-panic", format!("batch add panicked: {}", p), p);
+                                failed = true;
+                            }
+                        }
+                    }
                     for &ix in o {
+                        if batch_mode != 0 {
+                            break;
+                        }
                         match guarded(|| e.add_assertion_envelope(contrib[ix].0.clone())) {
                             Ok(Ok(x)) => e = x,
                             Ok(Err(_)) => {
